@@ -242,7 +242,7 @@ def _path_samples(exe):
 def run(chk, tier, jobs, deadline):
     chk.assumptions += ASSUME
     quick = tier == "quick"
-    budget = deadline or (110 if quick else 1700)
+    budget = deadline or (420 if quick else 1700)
     t_start = time.time()
     jobs = max(1, min(int(jobs), 64))
     keys = 2 if quick else 3
